@@ -347,8 +347,20 @@ def run_taint(rep, rng, n):
             root_logger.addHandler(h)
             root_logger.setLevel(logging.DEBUG)
             base = sb / f"t{i}"
+            # the log files of main() are switched on; in every third run the log file of the repository whose URL
+            # carries the password cannot be opened (a directory sits at its name)
+            blocked = i % 3 == 2
+
+            def prepare(apt, _blocked=blocked):
+                if not _blocked:
+                    return
+                cfg = R.apt_config(apt)
+                for repository in cfg.repositories.values():
+                    if "h1" in str(repository.url):
+                        (cfg.var_path / f"{repository.as_filename(cfg.encode_tilde)}.log").mkdir(parents=True, exist_ok=True)
             try:
-                res = P.run_tool(scn, base, faults=R.realise_plan(plan, files), upstream_files=files)
+                res = P.run_tool(scn, base, faults=R.realise_plan(plan, files), upstream_files=files, init_logs=True,
+                                 prepare=prepare)
             finally:
                 root_logger.removeHandler(h)
                 for oh in old_handlers:
@@ -377,7 +389,8 @@ def run_taint(rep, rng, n):
             rep.case(("taint", res.code, scn.autoclean, len(records) > 0, served > 0),
                      sample={"exit": res.code, "log_lines": len(records), "requests": served})
             rep.count("taint")
-            if served == 0 or not records:
+            rep.count("taint.log_file_blocked", int(blocked))
+            if (served == 0 and not blocked) or not records:
                 found = True
                 rep.violation(f"taint run did not exercise the tool (requests {served}, log lines {len(records)}, {res.exc})",
                               {"kind": "machinery", "tie": "taint", "case": {"i": i}}, tags={"oracle": "taint_vacuous"}, no_failing_input=True)
